@@ -555,4 +555,24 @@ example : ∃ nb kept, rotateRaw Rat.floor (⟨M3.one, ⟨-5/2, 7/4, 0⟩⟩ : B
   refine ⟨_, _, rfl, ?_⟩
   decide +kernel
 
+/-- (statement audit) non-vacuity of `rotateLadder_first_rung` / `rotateLadder_first_rung_rat` with a NON-zero first rung
+    (`t = 1/10000`, the default ladder's first value; with `t = 0` the hypothesis `hclear` is `ladderKeep_zero`): the
+    two-atom cell above, `det U = 2`, origin away from zero.  Every atom of the translated bounding supercell is decided
+    by the rung as by the exact test, the ladder returns what `rotate` returns, 4 atoms; and with the second atom moved
+    `3/100000` below a face of the NEW cell the first rung decides it differently (so `hclear` is a real restriction). -/
+example :
+    let b : Box ℚ := ⟨M3.one, ⟨-5/2, 7/4, 0⟩⟩
+    let U : M3 Int := ⟨⟨1, 1, 0⟩, ⟨-1, 1, 0⟩, ⟨0, 0, 1⟩⟩
+    let atoms : List (Atom ℚ) := [⟨1, ⟨-5/2, 7/4, 0⟩, []⟩, ⟨2, ⟨-2, 9/4, 1/2⟩, [3]⟩]
+    let near : List (Atom ℚ) := [⟨1, ⟨-5/2, 7/4, 0⟩, []⟩, ⟨2, ⟨-2, 9/4, 1 - 3/100000⟩, [3]⟩]
+    ((rotateSup Rat.floor b U atoms).2.all fun a =>
+      ladderKeep (1/10000) ((rotateSup Rat.floor b U atoms).1.cartToRel a.pos)
+        == inHalfOpen ((rotateSup Rat.floor b U atoms).1.cartToRel a.pos)) = true ∧
+    rotateLadder Rat.floor [1/10000, 1/100000] b U atoms = rotate Rat.floor b U atoms ∧
+    (rotateLadder Rat.floor [1/10000, 1/100000] b U atoms).toOption.map (·.2.length) = some 4 ∧
+    ((rotateSup Rat.floor b U near).2.all fun a =>
+      ladderKeep (1/10000) ((rotateSup Rat.floor b U near).1.cartToRel a.pos)
+        == inHalfOpen ((rotateSup Rat.floor b U near).1.cartToRel a.pos)) = false := by
+  decide +kernel
+
 end Atomman.C04
